@@ -208,6 +208,24 @@ class HTMLTranslator(html4css1.HTMLTranslator):
 
         return super().starttag(node, tagname, suffix, **attributes)  # type: ignore[no-any-return]
 
+    def visit_image(self, node: nodes.Node) -> None:
+        # For the images it presents with an <object> tag (svg, videos) the html4css1 writer 
+        # copies the alternative text - or the uri when there is none - as is in between 
+        # the tags: make sure it's encoded, like the 'alt' attribute of an <img> is.
+        uri = node['uri']
+        if not any(uri.lower().endswith(ext) for ext in self.object_image_types):
+            return super().visit_image(node)  # type: ignore[no-any-return]
+        _missing = object()
+        alt = node.attributes.get('alt', _missing)
+        node.attributes['alt'] = self.encode(node.get('alt', uri))
+        try:
+            super().visit_image(node)
+        finally:
+            if alt is _missing:
+                del node.attributes['alt']
+            else:
+                node.attributes['alt'] = alt
+
     def visit_doctest_block(self, node: nodes.Node) -> None:
         pysrc = node[0].astext()
         if node.get('codeblock'):
